@@ -12,6 +12,7 @@ import (
 	"strconv"
 	"strings"
 	"syscall"
+	"unsafe"
 
 	mfile "github.com/jrhy/mast/persist/file"
 )
@@ -31,7 +32,15 @@ const crashName = "AAAAAAAAAAAAAAAAAAAAAAAAAAAAAAAAAAAAAAAAAAA"
 // the byte where the write is cut; mode "ioerr": the write fails with EFBIG and Store returns.
 func childFileStore(dir string, n, limit int, mode string) {
 	if mode == "crash" {
+		// SIGXFSZ back to SIG_DFL behind the back of the Go runtime (signal.Reset alone leaves the
+		// runtime's handler in place: write(2) then returns EFBIG and nobody dies): 32 zero bytes are
+		// a struct sigaction with handler SIG_DFL, no flags, empty mask
 		signal.Reset(syscall.SIGXFSZ)
+		var act [32]byte
+		if _, _, e := syscall.RawSyscall6(syscall.SYS_RT_SIGACTION, uintptr(syscall.SIGXFSZ), uintptr(unsafe.Pointer(&act[0])), 0, 8, 0, 0); e != 0 {
+			fmt.Println("rt_sigaction:", e)
+			os.Exit(4)
+		}
 	} else {
 		signal.Ignore(syscall.SIGXFSZ)
 	}
